@@ -1556,7 +1556,12 @@ func c11Parent(tier string, seed uint64, cases []*c11Case, idxs []int, nShards i
 }
 
 func runC11(tier string, seed uint64, out *Out) {
+	// building the case list runs no code under test and, in the thorough tier on a loaded machine,
+	// can take longer than the guard's no-output limit: say so while it lasts (harness/common.go
+	// drops lines that start with '#')
+	stopBeat := heartbeat("generating the C11 cases")
 	cases := genC11(tier, seed)
+	stopBeat()
 	if spec := os.Getenv("VERIF_C11_CHILD"); spec != "" {
 		c11Child(cases, spec)
 		return
